@@ -1138,6 +1138,14 @@ func (c *BytecodeCompiler) prepLocals() {
 		currentValue := c.bytecode.Values[id].MustSmallInt()
 		c.bytecode.Values[id] = (currentValue + value.SmallInt(len(newInstructions))).ToValue()
 	}
+
+	// calls of this function that are still waiting to be optimised
+	// have recorded the offset of their opcode, shift it as well
+	c.globalData.callsToOptimise.Each(func(call *bytecodeCall) {
+		if call.bytecode == c.bytecode {
+			call.bytecodeOffset += len(newInstructions)
+		}
+	})
 }
 
 func (c *BytecodeCompiler) initLoopJumpSet(label string, returnsValFromLastIteration bool) {
